@@ -67,9 +67,21 @@ def eval_conds(f, conds, env):
                     break
             if chosen != idx:
                 return False
-        elif kind == "letelse":
-            pass
+        elif kind == "let":
+            bind_let(it, c[1], env)
     return True
+
+
+def bind_let(it, stmt, env):
+    """bind the locals of a `let` on the path (their values may be used by later guards); values outside the fragment
+    simply stay unbound - a later guard that needs them then fails closed"""
+    if stmt.get("init") is None:
+        return
+    try:
+        v = it.ev(stmt["init"], dict(env))
+        it.bind(stmt["pat"], v, env)
+    except (Unsupported, Exception):
+        pass
 
 
 def check_add(run, f, cfg):
@@ -226,6 +238,8 @@ def eval_conds_take(f, conds, env):
                     break
             if chosen != idx:
                 return False
+        elif c[0] == "let":
+            bind_let(it, c[1], env)
     return True
 
 
